@@ -1,7 +1,7 @@
 /-
 C14 — header import leaves the stores equal to the file, or consistent on failure.
 -/
-import Neutrino.Spec.Import
+import Neutrino.Lemmas.Import
 namespace Neutrino.Import
 
 /-- pre-state: both stores healthy (tip = last entry) -/
@@ -27,5 +27,76 @@ theorem C14_success_counterexample : ¬ C14_success := by
   intro h
   have := h cexFile { bs := 1 } cexStores (by decide) (by decide) (by decide)
   exact absurd this.1 (by decide)
+
+/-- both stores at the same height (the only pre-state from which the real
+importer can append anything: with real `headerfs` stores the filter store's tip
+is resolved through the block index, and a block store that is ahead is rejected
+by `validateHeaderConnection`, which compares with the block TIP) -/
+def EqualHeights (st : Stores) : Prop := st.blocks.length = st.filters.length
+
+theorem healthy_eq_mk (st : Stores) (h : Healthy st) : st = mk st.blocks st.filters := by
+  obtain ⟨_, _, h3, h4⟩ := h
+  cases st
+  simp only [mk] at *
+  simp only [h3, h4]
+
+theorem healthy_len (st : Stores) (h : Healthy st) : st.blocks.length ≥ 1 ∧ st.filters.length ≥ 1 := by
+  obtain ⟨h1, h2, _, _⟩ := h
+  constructor
+  · cases hb : st.blocks with
+    | nil => exact absurd hb h1
+    | cons _ _ => simp
+  · cases hb : st.filters with
+    | nil => exact absurd hb h2
+    | cons _ _ => simp
+
+/-- **Success clause outside the recorded shape** — every file (start height 0,
+or any start height when the file ends at or below the store tips), every length,
+every batch size, every store height, every injected write failure: if `Import`
+reports success, both stores are usable and hold, height for height, exactly
+their earlier contents extended by the file's headers up to its last height. -/
+theorem C14_success_partial (F : File) (cfg : Cfg) (st : Stores) (hh : Healthy st) (heq : EqualHeights st)
+    (hbs : cfg.bs ≥ 1) (hshape : f7Shape (obsOf st) F = false)
+    (hok : (importStores F cfg st).1 = none) :
+    contentOk (obsOf st) F (obsOf (importStores F cfg st).2) = true := by
+  obtain ⟨hl1, hl2⟩ := healthy_len st hh
+  have hmk := healthy_eq_mk st hh
+  unfold EqualHeights at heq
+  obtain ⟨B, Fl, rfl⟩ : ∃ B Fl, st = mk B Fl := ⟨_, _, hmk⟩
+  have heq : B.length = Fl.length := heq
+  have hl1 : B.length ≥ 1 := hl1
+  have hl2 : Fl.length ≥ 1 := hl2
+  unfold importStores at hok ⊢
+  simp only at hok ⊢
+  have e3 : ∀ B Fl, (obsOf (mk B Fl)).blocks = B := fun _ _ => rfl
+  have e4 : ∀ B Fl, (obsOf (mk B Fl)).filters = Fl := fun _ _ => rfl
+  by_cases hs : F.bstart = 0
+  · have hp := importRun_zero F cfg B Fl B.length hs hbs rfl heq.symm hl1
+    obtain ⟨hmeta, hst⟩ := hp.1 hok
+    rw [hst]
+    have hu := usable_mk (B ++ F.blocks.drop B.length) (Fl ++ F.filters.drop B.length)
+      (by rw [List.length_append]; omega) (by rw [List.length_append]; omega)
+    rw [heq] at hu
+    simp only [contentOk, hmeta, hu, e3, e4, extend, hs, Nat.sub_zero, Nat.zero_le, decide_true, Bool.and_self,
+      beq_self_eq_true, heq]
+  · -- file starts above 0 but ends at or below both tips: nothing to append
+    have he : endHeight F ≤ B.length - 1 := by
+      simp only [f7Shape, Bool.and_eq_false_iff, decide_eq_false_iff_not, e3, e4] at hshape
+      rcases hshape with h | h
+      · omega
+      · rw [← heq, Nat.min_self] at h; omega
+    have hp := importRun_covered F cfg B Fl B.length rfl heq.symm hl1 he
+    obtain ⟨hmeta, hgap⟩ := hp.2 hok
+    rw [hp.1]
+    have hu := usable_mk B Fl hl1 hl2
+    have hN : F.filters.length = F.blocks.length := by
+      simp only [metaOk, Bool.and_eq_true, beq_iff_eq] at hmeta; exact hmeta.1.2.symm
+    have hd1 : F.blocks.drop (B.length - F.bstart) = [] :=
+      List.drop_eq_nil_of_le (by unfold endHeight at he; omega)
+    have hd2 : F.filters.drop (Fl.length - F.bstart) = [] :=
+      List.drop_eq_nil_of_le (by unfold endHeight at he; omega)
+    have hg2 : F.bstart ≤ Fl.length := by omega
+    simp only [contentOk, hmeta, hu, e3, e4, extend, hd1, hd2, List.append_nil, hgap, hg2, decide_true, Bool.and_self,
+      beq_self_eq_true]
 
 end Neutrino.Import
